@@ -58,6 +58,12 @@ def check(case, ctx):
         if extra:
             raise Violation("ran-unneeded-body", f"options={o}: bodies {sorted(extra)} ran but the eager computation never touches them "
                                                  f"(may-set {sorted(r.touched)})")
+        # a coalesce member that cannot be evaluated is rejected by validation: of its bodies only those that
+        # compute a branch-selecting value may run
+        illegal = ran_set & (r.failed_member_bodies - r.choosers - r.must - specgen.static_choosers(spec))
+        if illegal:
+            raise Violation("ran-body-of-unselected-coalesce-member", f"options={o}: bodies {sorted(illegal)} belong to a coalesce member that "
+                                                                      f"cannot be evaluated and was not selected, yet they ran: {ran}")
         fact_ran = {e[1] for e in G.log if e[0] == "factory"}
         fact_ref = {e[1] for e in r.full_log if e[0] == "factory"}
         if fact_ran - fact_ref:
@@ -66,6 +72,7 @@ def check(case, ctx):
             missing = r.must - ran_set
             if missing:
                 raise Violation("needed-body-did-not-run", f"options={o}: bodies {sorted(missing)} are needed but did not run (ran {ran})")
+            ref_order = [e[1] for e in r.log if e[0] == "body"]   # the eager computation's own order
             first = {}
             for i, b in enumerate(ran):
                 first.setdefault(b, i)
@@ -75,7 +82,9 @@ def check(case, ctx):
                     continue
                 for p in d.get("params", []):
                     if p["k"] == "ref" and p["name"] != name and p["name"] in r.must and p["name"] in first and \
-                            ran.count(name) == 1 and ran.count(p["name"]) == 1:
+                            ran.count(name) == 1 and ran.count(p["name"]) == 1 and \
+                            ref_order.count(name) == 1 and ref_order.count(p["name"]) == 1 and \
+                            ref_order.index(p["name"]) < ref_order.index(name):
                         labels.add("arg-order-checked")
                         if first[p["name"]] > first[name]:
                             raise Violation("body-before-argument", f"options={o}: body {name} ran before its argument {p['name']}: {ran}")
@@ -91,6 +100,7 @@ def check(case, ctx):
                     x, y = n["src"]["name"], n["fn"]["param"]["name"]
                     if x != y and x in first and y in first and x in r.must and y in r.must and \
                             refcount.get(x) == 1 and refcount.get(y) == 1 and ran.count(x) == 1 and ran.count(y) == 1 and \
+                            ref_order.count(x) == 1 and ref_order.count(y) == 1 and \
                             not depends_on(defs, x, y) and not depends_on(defs, y, x):
                         labels.add("apply-order-checked")
                         if first[x] > first[y]:
@@ -122,6 +132,12 @@ def cases(draw, prof):
         a, b = draw(st.permutations(spec["defs"]))[:2]
         extra = {"k": "apply", "src": {"k": "ref", "name": a["name"]}, "fn": {"step": "pair", "param": {"k": "ref", "name": b["name"]}}}
         spec = dict(spec, root={"k": "tuple", "items": [extra, spec["root"]] if draw(st.booleans()) else [spec["root"], extra]})
+    if spec["defs"] and draw(st.integers(0, 2)) == 0:
+        # a coalesce whose first member reaches a dataset before it needs an option that may be missing
+        a = draw(st.sampled_from(spec["defs"]))
+        member = {"k": draw(st.sampled_from(["list", "tuple"])), "items": [{"k": "ref", "name": a["name"]}, {"k": "opt", "key": draw(st.sampled_from(U.FLAT + ["S.X"]))}]}
+        extra = {"k": "coalesce", "members": [member, {"k": "val", "v": "fallback"}]}
+        spec = dict(spec, root={"k": "tuple", "items": [extra, spec["root"]]})
     opts = [draw(U.option_dicts(p_present=draw(st.sampled_from([0.5, 0.8, 0.95])))) for _ in range(2)]
     return {"spec": spec, "options": opts}
 
@@ -293,7 +309,7 @@ def scripts():
                                                   min_size=1, max_size=14)})
 
 
-PROFILE = specgen.profile(domain_rate=0.01)
+PROFILE = specgen.profile(domain_rate=0.0)
 PARTS = [
     Part("evaluation", check, strategy=lambda ctx: cases(PROFILE), budget={"quick": 130, "thorough": 2000}),
     Part("construction", check_construction, strategy=lambda ctx: scripts(), budget={"quick": 40, "thorough": 500}),
